@@ -297,11 +297,25 @@ class C14:
 
         state = {'reused_opts_L': None, 'reused_opts_F': None}
 
+        def check_args(passed, pristine, opname, side):
+            """Oracle 4: every argument object the caller passed deep-equals its pre-call copy (rebuilt from the literal spec)."""
+            if side != 'L':
+                return
+            bump(probes, 'args_checked')
+            a, b = canon(passed), canon(pristine)
+            if a != b:
+                key = next((kk for kk in b if a.get(kk) != b.get(kk)), '?')
+                add_v('argument-mutated', f'argument-mutated/{opname}/{key}', b.get(key), a.get(key), op=opname)
+
         def run_op(d, op, side):
             """Execute one read-only operation on document d. Returns a normalised, comparable result."""
             k = op['op']
             if k == 'dumps':
-                return kp.dumps(d, **dumps_kwargs(op['opts']))
+                kw = dumps_kwargs(op['opts'])
+                try:
+                    return kp.dumps(d, **kw)
+                finally:
+                    check_args(kw, dumps_kwargs(op['opts']), k, side)
             if k == 'export_reused':
                 key = 'reused_opts_' + side
                 if side == 'L':
@@ -323,7 +337,11 @@ class C14:
                         add_v('argument-mutated', 'argument-mutated/ExportOptions', before, obj_tuple(opt), op=k, side=side)
             if k == 'dump':
                 path = f'{PREFIX}/{side}/{op["name"]}'
-                kp.dump(d, path, **dumps_kwargs(op['opts']))
+                kw = dumps_kwargs(op['opts'])
+                try:
+                    kp.dump(d, path, **kw)
+                finally:
+                    check_args(kw, dumps_kwargs(op['opts']), k, side)
                 return fs.get(path)
             if k == 'graph':
                 if op['to'] == 'stdout':
@@ -335,12 +353,16 @@ class C14:
                 kp.graph(d, path)
                 data = fs.get(path)
                 return norm_graph(data.decode('utf-8')) if data is not None else None
-            if k in ('get_all_tokens', 'get_unique_tokens'):
-                return norm_tokens(getattr(d, k)(filter_by_categories=cat_arg(op.get('cats'))))
-            if k in ('get_all_tokens_encodings', 'get_unique_token_encodings'):
-                return getattr(d, k)(filter_by_categories=cat_arg(op.get('cats')))
-            if k == 'frequencies':
-                return d.frequencies(token_categories=cat_arg(op.get('cats')))
+            if k in ('get_all_tokens', 'get_unique_tokens', 'get_all_tokens_encodings', 'get_unique_token_encodings', 'frequencies'):
+                arg = cat_arg(op.get('cats'))
+                try:
+                    if k in ('get_all_tokens', 'get_unique_tokens'):
+                        return norm_tokens(getattr(d, k)(filter_by_categories=arg))
+                    if k == 'frequencies':
+                        return d.frequencies(token_categories=arg)
+                    return getattr(d, k)(filter_by_categories=arg)
+                finally:
+                    check_args({'categories': arg}, {'categories': cat_arg(op.get('cats'))}, k, side)
             if k == 'get_metacomments':
                 return d.get_metacomments(KeyComment=op['key'], clear=op['clear'])
             if k == 'get_voices':
@@ -366,7 +388,11 @@ class C14:
                 return [next(d), next(d)]
             if k == 'spine_types':
                 h = op.get('headers')
-                return kp.spine_types(d, headers=list(h) if h is not None else None)
+                arg = list(h) if h is not None else None
+                try:
+                    return kp.spine_types(d, headers=arg)
+                finally:
+                    check_args({'headers': arg}, {'headers': list(h) if h is not None else None}, k, side)
             if k == 'is_monophonic':
                 return kp.is_monophonic(d)
             if k == 'match':
@@ -561,8 +587,6 @@ class C14:
                             bump(probes, 'graph_compared')
                         if k == 'dump':
                             bump(probes, 'dump_compared')
-                # ---- oracle 4: arguments unchanged (containers are rebuilt from the literal spec, so equality is by value)
-                bump(probes, 'args_checked')
                 after_op(k, idx)
         if fs.escapes:
             from simkit.runner import HarnessError
